@@ -90,6 +90,9 @@ WHITELIST = [
      {"self": {"X": "float", "Y": "float", "Z": "float"}, "base": {"toECEFCoords()": "object[ECEFCoords]"}}, "object[ENUCoords]", {}),
     ("core/obs_coords.py", "ENUCoords.toECEFCoords", "ENUCoords_toECEFCoords",
      {"self": {"E": "float", "N": "float", "U": "float"}, "base": {"toECEFCoords()": "object[ECEFCoords]"}}, "object[ECEFCoords]", {}),
+    ("core/obs_coords.py", "ENUCoords.__sub__", "ENUCoords_sub", {"self": {"__class__": "ENUCoords", "E": "float", "N": "float", "U": "float"}, "p": {"__class__": "ENUCoords", "E": "float", "N": "float", "U": "float"}}, "object[ENUCoords]", {}),
+    ("core/obs_coords.py", "ENUCoords.norm2D", "ENUCoords_norm2D", {"self": {"__class__": "ENUCoords", "E": "float", "N": "float"}}, "float", {}),
+    ("core/obs_coords.py", "ENUCoords.distance2DTo", "ENUCoords_distance2DTo", {"self": {"__class__": "ENUCoords", "E": "float", "N": "float", "U": "float"}, "point": {"__class__": "ENUCoords", "E": "float", "N": "float", "U": "float"}}, "float", {}),
     ("core/raster.py", "Raster.getCell", "Raster_getCell",
      {"self": {"xmin": "float", "xmax": "float", "ymin": "float", "ymax": "float", "resolution": "tuple[float,float]",
                "nrow": "int", "ncol": "int"},
@@ -185,7 +188,9 @@ def tuple_proj(term, i, n):
     return s
 
 
-RESERVED = {"decide", "Int", "Nat", "List", "Option", "Bool", "Py", "some", "none", "true", "false", "Type", "TV"} | set(MATH_FUNS)
+RESERVED = {"decide", "Int", "Nat", "List", "Option", "Bool", "Py", "some", "none", "true", "false", "Type", "TV",
+            # tokens the engine greps for in every Lean source
+            "sorry", "admit", "native_decide", "bv_decide", "implemented_by", "unsafe", "axiom", "maxHeartbeats"} | set(MATH_FUNS)
 
 
 def ident(name):
@@ -215,10 +220,16 @@ class FnTranslator:
         # pure accessor methods ("name()") are read: each becomes one Lean parameter `<param>_<name>`
         self.params = {}
         self.records = {}
+        self.objclass = {}
         for k, v in params.items():
             if isinstance(v, dict):
-                self.records[k] = {f: parse_ty(t) for f, t in v.items()}
-                self.params[k] = ("R", k)
+                self.records[k] = {f: parse_ty(t) for f, t in v.items() if f != "__class__"}
+                if "__class__" in v:
+                    # an instance of a class of the same file: its methods / operators are resolved statically
+                    self.objclass[k] = v["__class__"]
+                    self.params[k] = ("Obj", v["__class__"])
+                else:
+                    self.params[k] = ("R", k)
             else:
                 self.params[k] = parse_ty(v)
         self.ret = parse_ty(ret)
@@ -419,6 +430,11 @@ class FnTranslator:
         return self.grow(s)
 
     def binop(self, e, env, binds):
+        if isinstance(e.op, (ast.Sub, ast.Add)) and self.is_objexpr(e.left, env):
+            # operator of the left operand's class (static resolution; __r*__ fallbacks are not in the subset)
+            cls, terms = self.obj_terms(e.left, env, binds)
+            callee = self.unit.lookup(cls + "." + ("__sub__" if isinstance(e.op, ast.Sub) else "__add__"), self)
+            return self.call_translated(e, callee, [("obj", cls, terms), e.right], env, binds)
         a = self.expr_s(e.left, env, binds)
         b = self.expr_s(e.right, env, binds)
         if (a.ty == "S") != (b.ty == "S"):
@@ -525,6 +541,66 @@ class FnTranslator:
                 acc = t
         return Val(acc, "B")
 
+    def is_objexpr(self, node, env):
+        if isinstance(node, ast.Name):
+            return isinstance(env.get(node.id), tuple) and env[node.id][0] == "Obj"
+        if isinstance(node, ast.BinOp) and isinstance(node.op, (ast.Sub, ast.Add)):
+            return self.is_objexpr(node.left, env)
+        return False
+
+    def obj_terms(self, node, env, binds):
+        """class and {attribute: Lean term} of an object-valued expression"""
+        if isinstance(node, ast.Name) and self.is_objexpr(node, env):
+            x = node.id
+            return env[x][1], {k[len(x) + 1:]: ident(x + "_" + k[len(x) + 1:]) for k in env if k.startswith(x + ".")}
+        v = self.expr_s(node, env, binds)
+        if not (isinstance(v.ty, tuple) and v.ty[0] == "Obj"):
+            bad(node, "an object is expected")
+        fields = self.unit.ctor_fields(v.ty[1])
+        if fields is None:
+            bad(node, "class %s has no constructor of the accepted form" % v.ty[1])
+        t = self.tmp()
+        binds.append((t, "(.ok %s)" % v.term))
+        return v.ty[1], {g: tuple_proj(t, i, len(fields)) for i, g in enumerate(fields)}
+
+    def call_translated(self, node, callee, actuals, env, binds):
+        """call of a translated function; an actual is an ast node (a value) or ("obj", class, {attribute: term})"""
+        if callee is None:
+            bad(node, "call of a function that is not (or could not be) translated")
+        if len(actuals) != len(callee.params):
+            bad(node, "arity / default arguments")
+        args = []
+        for a, (pn, pt) in zip(actuals, callee.params.items()):
+            if pn in callee.records:
+                if not (isinstance(a, tuple) and a[0] == "obj"):
+                    if isinstance(a, ast.AST) and self.is_objexpr(a, env):
+                        cls, terms = self.obj_terms(a, env, binds)
+                        a = ("obj", cls, terms)
+                    else:
+                        bad(node, "argument %s of %s must be an object" % (pn, callee.pyname))
+                if pn in callee.objclass and callee.objclass[pn] != a[1]:
+                    bad(node, "argument %s of %s: a %s where a %s is declared" % (pn, callee.pyname, a[1], callee.objclass[pn]))
+                for fld, ft in callee.records[pn].items():
+                    if fld not in a[2] or ft != "F":
+                        bad(node, "attribute %s read by %s is not available on the argument" % (fld, callee.pyname))
+                    args.append(a[2][fld])
+                continue
+            if isinstance(a, tuple):
+                bad(node, "an object where %s expects a value" % callee.pyname)
+            v = self.expr(a, env, binds)
+            if pt == "F" and v.ty in ("F", "I"):
+                args.append(self.as_float(a, v))
+            elif v.ty == pt:
+                args.append(v.term)
+            else:
+                bad(a, "argument %s of %s: a %s where a %s is declared" % (pn, callee.pyname, v.ty, pt))
+        self.needs |= callee.needs
+        self.ofnat |= callee.ofnat
+        self.math |= callee.math
+        t = self.tmp()
+        binds.append((t, "(%s)" % " ".join([callee.lean] + [m for m in MATH_ORDER if m in callee.math] + args)))
+        return Val(t, callee.ret)
+
     def call(self, e, env, binds):
         if e.keywords or any(isinstance(a, ast.Starred) for a in e.args):
             bad(e, "keyword / starred arguments")
@@ -547,26 +623,11 @@ class FnTranslator:
                     bad(e, "class %s has no constructor of the accepted form" % ft[1])
                 return Val("(" + ", ".join(ident(f.value.id + "_" + f.attr + "_" + g) for g in cf) + ")", ft)
             return Val(ident(f.value.id + "_" + f.attr), ft)
-        # method of a LOCAL object, resolved statically by the class it was constructed with
-        if isinstance(f, ast.Attribute) and isinstance(f.value, ast.Name) and isinstance(env.get(f.value.id), tuple) \
-                and env[f.value.id][0] == "Obj":
-            x, cls = f.value.id, env[f.value.id][1]
+        # method of an object (local object, class-typed parameter, result of an operator), resolved statically by its class
+        if isinstance(f, ast.Attribute) and self.is_objexpr(f.value, env):
+            cls, terms = self.obj_terms(f.value, env, binds)
             callee = self.unit.lookup(cls + "." + f.attr, self)
-            if callee is None:
-                bad(e, "method %s.%s is not (or could not be) translated" % (cls, f.attr))
-            if e.args or list(callee.params) != ["self"] or "self" not in callee.records:
-                bad(e, "only argument-less translated methods can be called on a local object")
-            args = []
-            for fld, ft in callee.records["self"].items():
-                if (x + "." + fld) not in env or env[x + "." + fld] != ft:
-                    bad(e, "attribute %s.%s read by %s.%s is not available" % (x, fld, cls, f.attr))
-                args.append(ident(x + "_" + fld))
-            self.needs |= callee.needs
-            self.ofnat |= callee.ofnat
-            self.math |= callee.math
-            t = self.tmp()
-            binds.append((t, "(%s)" % " ".join([callee.lean] + [m for m in MATH_ORDER if m in callee.math] + args)))
-            return Val(t, callee.ret)
+            return self.call_translated(e, callee, [("obj", cls, terms)] + list(e.args), env, binds)
         # x.is_integer() on a float
         if isinstance(f, ast.Attribute) and f.attr == "is_integer" and not e.args:
             v = self.expr(f.value, env, binds)
@@ -622,30 +683,21 @@ class FnTranslator:
                 return Val("(Py.f%s %s %s)" % (name, self.as_float(e.args[0], args[0]), self.as_float(e.args[1], args[1])), "F")
             if name == "list" and not e.args:
                 bad(e, "list() outside an assignment")
+            cf = self.unit.ctor_fields(name)
+            if cf is not None:
+                # C(a1, .., an): the object as the tuple of its attributes
+                if len(e.args) != len(cf):
+                    bad(e, "constructor call with defaulted arguments")
+                vals = [self.expr(a, env, binds) for a in e.args]
+                if any(v.ty not in ("F", "I") for v in vals):
+                    bad(e, "constructor argument that is not a number")
+                return Val("(" + ", ".join(self.as_float(a, v) for a, v in zip(e.args, vals)) + ")", ("Obj", name))
             callee = self.unit.lookup(name, self)
         elif isinstance(f, ast.Attribute) and isinstance(f.value, ast.Name) and f.value.id not in env:
             callee = self.unit.lookup(f.value.id + "." + f.attr, self)
         else:
             bad(e, "call of something that is not a plain function name")
-        if callee is None:
-            bad(e, "call of a function that is not (or could not be) translated")
-        if len(e.args) != len(callee.params):
-            bad(e, "arity / default arguments")
-        args = []
-        for a, (pn, pt) in zip(e.args, callee.params.items()):
-            v = self.expr(a, env, binds)
-            if pt == "F" and v.ty in ("F", "I"):
-                args.append(self.as_float(a, v))
-            elif v.ty == pt:
-                args.append(v.term)
-            else:
-                bad(a, "argument %s of %s: a %s where a %s is declared" % (pn, callee.pyname, v.ty, pt))
-        self.needs |= callee.needs
-        self.ofnat |= callee.ofnat
-        self.math |= callee.math
-        t = self.tmp()
-        binds.append((t, "(%s)" % " ".join([callee.lean] + [m for m in MATH_ORDER if m in callee.math] + args)))
-        return Val(t, callee.ret)
+        return self.call_translated(e, callee, list(e.args), env, binds)
 
     # ---- statements
     def coerce(self, node, v, want):
@@ -714,11 +766,15 @@ class FnTranslator:
                     return "(.ok none)"
                 bad(s, "returns None but the declared return type is not optional")
             if isinstance(self.ret, tuple) and self.ret[0] == "Obj":
-                if not (isinstance(s.value, ast.Name) and env.get(s.value.id) == ("Obj", self.ret[1])):
-                    bad(s, "returns something that is not a local %s object" % self.ret[1])
-                x = s.value.id
                 fields = self.unit.ctor_fields(self.ret[1])
-                return "(.ok (%s))" % ", ".join(ident(x + "_" + f) for f in fields)
+                if isinstance(s.value, ast.Name) and env.get(s.value.id) == ("Obj", self.ret[1]):
+                    x = s.value.id
+                    return "(.ok (%s))" % ", ".join(ident(x + "_" + f) for f in fields)
+                binds = []
+                v = self.expr_s(s.value, env, binds)
+                if v.ty != self.ret:
+                    bad(s, "returns a %s where %s is declared" % (v.ty, self.ret))
+                return self.close(binds, ".ok %s" % v.term)
             binds = []
             term = self.ret_value(s.value, env, binds)
             return self.close(binds, ".ok %s" % term)
@@ -732,6 +788,8 @@ class FnTranslator:
                 key = tgt.value.id + "." + tgt.attr
                 if key not in env:
                     bad(s, "attribute %s is not set by the constructor" % key)
+                if tgt.value.id in self.readonly:
+                    bad(s, "store into an attribute of a parameter (visible to the caller)")
                 binds = []
                 v = self.expr(s.value, env, binds)
                 if not (v.ty == env[key] or (env[key] == "F" and v.ty == "I")):
@@ -757,7 +815,8 @@ class FnTranslator:
                     env2[x + "." + f] = "F"          # coordinates are floats
                     lets.append("let %s : α := %s" % (ident(x + "_" + f), self.as_float(a, v)))
                 return self.close(binds, ";\n".join(lets) + ";\n" + self.block(rest, env2, fresh - {x}))
-            if isinstance(tgt, ast.Name) and isinstance(s.value, ast.Call) and isinstance(s.value.func, ast.Attribute):
+            if isinstance(tgt, ast.Name) and (isinstance(s.value, ast.Call) and isinstance(s.value.func, ast.Attribute)
+                                              or isinstance(s.value, ast.BinOp) and self.is_objexpr(s.value, env)):
                 binds = []
                 v = self.expr_s(s.value, env, binds)
                 if isinstance(v.ty, tuple) and v.ty[0] == "Obj":
@@ -769,6 +828,7 @@ class FnTranslator:
                     lets = ["let %s : (%s) := %s" % (t, " × ".join(["α"] * len(fields)), v.term)]
                     env2 = {k: ty for k, ty in env.items() if not k.startswith(x + ".")}
                     env2[x] = ("Obj", cls)
+                    self.readonly.discard(x)
                     for i, g in enumerate(fields):
                         env2[x + "." + g] = "F"
                         lets.append("let %s : α := %s" % (ident(x + "_" + g), tuple_proj(t, i, len(fields))))
@@ -857,6 +917,12 @@ class FnTranslator:
             if not (isinstance(d, ast.Name) and d.id == "staticmethod"):
                 raise Unsupported("decorator")
         env = dict(self.params)
+        self.readonly = set(self.objclass)       # attributes of a parameter object are never stored into
+        for k in self.objclass:
+            for fld, ft in self.records[k].items():
+                if fld.endswith("()"):
+                    raise Unsupported("accessor in a class-typed parameter")
+                env[k + "." + fld] = ft
         self._env_names = set(self.params)
         self.assigned = {n.id for n in ast.walk(fdef) if isinstance(n, ast.Name) and isinstance(n.ctx, ast.Store)}
         body = self.block(list(fdef.body), env, frozenset())
